@@ -112,6 +112,73 @@ def _class_accepts(pattern_items, ch):
     return hits
 
 
+def _regex_letters(items):
+    """Letters a parsed regex can match anywhere (literals and classes)."""
+    out = set()
+
+    def visit(items):
+        for op, av in items:
+            name = str(op)
+            if name == 'LITERAL' and chr(av).isalpha():
+                out.add(chr(av))
+            elif name == 'IN':
+                for o, a in av:
+                    if str(o) == 'LITERAL' and chr(a).isalpha():
+                        out.add(chr(a))
+                    elif str(o) == 'RANGE':
+                        out.update(chr(c) for c in range(a[0], a[1] + 1)
+                                   if chr(c).isalpha())
+            elif name == 'SUBPATTERN':
+                visit(av[3])
+            elif name in ('MAX_REPEAT', 'MIN_REPEAT'):
+                visit(av[2])
+            elif name == 'BRANCH':
+                for b in av[1]:
+                    visit(b)
+    visit(items)
+    return out
+
+
+def _validation_regexes(repo, fnode, module, cls):
+    """Patterns a function applies to the text with match/fullmatch."""
+    out = []
+    for c in ast.walk(fnode):
+        if not (isinstance(c, ast.Call) and
+                isinstance(c.func, ast.Attribute) and
+                c.func.attr in ('match', 'fullmatch', 'search')):
+            continue
+        recv = c.func.value
+        pat_node = None
+        if dotted(recv) == 're' and c.args:
+            pat_node = ast.Call(func=ast.Name(id='re.compile'),
+                                args=[c.args[0]] + list(c.args[2:]),
+                                keywords=[])
+        else:
+            nm = dotted(recv) or ''
+            last = nm.split('.')[-1]
+            v = None
+            if cls is not None and nm.startswith(('self.', 'cls.')):
+                for k in repo.mro(cls):
+                    if last in k.class_attrs:
+                        v = k.class_attrs[last]
+                        break
+            if v is None:
+                v = module.assigns.get(last)
+            if isinstance(v, ast.Call) and dotted(v.func) in (
+                    're.compile', 'compile'):
+                pat_node = v
+        if pat_node is None or not pat_node.args:
+            continue
+        p = const(pat_node.args[0])
+        if not isinstance(p, str):
+            continue
+        flags = ' '.join(unparse(a) for a in pat_node.args[1:]) + ' '.join(
+            unparse(k.value) for k in getattr(pat_node, 'keywords', []))
+        icase = 're.I' in flags or 'IGNORECASE' in flags or '(?i' in p
+        out.append((p, icase, c.lineno))
+    return out
+
+
 def exponent_alphabet(ctx):
     repo = ctx.repo
     rule = 'C16.formatter-alphabet-accepted-by-readers'
@@ -148,10 +215,13 @@ def exponent_alphabet(ctx):
                     sdbl.file, sdbl.line)
     readers = []
 
-    def float_sites(fnode, module, depth=0):
+    regexes_seen = []
+
+    def float_sites(fnode, module, depth=0, cls=None):
         """(converter names, preprocessing calls) of every text->float
         conversion in fnode, following calls to repository helpers."""
         conv, pre = set(), []
+        regexes_seen.extend(_validation_regexes(repo, fnode, module, cls))
         for c in ast.walk(fnode):
             if not isinstance(c, ast.Call):
                 continue
@@ -162,6 +232,14 @@ def exponent_alphabet(ctx):
                     c.func.attr in ('replace', 'translate', 'lower',
                                     'upper'):
                 pre.append(unparse(c)[:80])
+            elif isinstance(c.func, ast.Attribute) and depth < 3 and \
+                    dotted(c.func.value) == 'self' and cls is not None and \
+                    repo.find_method(cls, c.func.attr) is not None and \
+                    c.func.attr not in ('cpu', 'impl'):
+                g = repo.find_method(cls, c.func.attr)
+                c2, p2 = float_sites(g.node, g.module, depth + 1, cls)
+                conv |= c2
+                pre += p2
             elif isinstance(c.func, ast.Name) and depth < 3:
                 tgt = None
                 g = module.functions.get(d)
@@ -183,11 +261,13 @@ def exponent_alphabet(ctx):
     for mod, qn in (('qvm.machine', 'DataDevice._exec_read'),
                     ('qvm.machine', 'TerminalDevice._exec_input')):
         f = repo.func(mod, qn)
-        conv, pre = float_sites(f.node, f.module)
+        del regexes_seen[:]
+        conv, pre = float_sites(f.node, f.module, 0, f.cls)
+        rx = list(regexes_seen)
         if 'float' not in conv:
             raise AnalysisError(f'anchor vanished: no text->float '
                                 f'conversion found in {qn} or its helpers')
-        readers.append((f, qn, conv, pre))
+        readers.append((f, qn, conv, pre, rx))
     for mk in sorted(markers):
         construct = f'{fn.file}:format_number:marker[{mk}]'
         hits = [h for p in parsed_all for h in _class_accepts(list(p), mk)
@@ -199,7 +279,23 @@ def exponent_alphabet(ctx):
                         f'format_number writes exponent marker {mk!r} but '
                         f'the numeric_literal regex has no class accepting '
                         f'it: VAL(STR$(x)) fails', fn.file, fn.line)
-        for f, qn, conv, pre in readers:
+        for f, qn, conv, pre, rx in readers:
+            for p, icase, line in rx:
+                letters = _regex_letters(list(sre_parse.parse(p)))
+                if not (letters & set('eEdD')):
+                    continue            # not a pattern with an exponent
+                c3 = f'{construct}:{qn}:validation-regex'
+                ok = icase or mk in letters
+                ctx.instance(rule, c3, sample={'pattern': p, 'marker': mk,
+                                               'accepts': ok})
+                if not ok:
+                    ctx.finding(rule, c3,
+                                f'{qn} validates the text with {p!r} before '
+                                f'converting it; the pattern accepts '
+                                f'exponent letters {sorted(letters & set("eEdD"))} '
+                                f'but not {mk!r}, which format_number writes: '
+                                f'a number printed by PRINT/STR$ is rejected '
+                                f'when read back', f.file, line)
             c2 = f'{construct}:{qn}'
             ctx.instance(rule, c2, sample={'marker': mk, 'converts_with':
                                            sorted(conv), 'preprocess': pre})
